@@ -212,9 +212,12 @@ def stepConv (cx : Ctx) (rc : Recv) (op : String) (args : List String) : Option 
     -- the harness's clone bumps every cell of the copy by one afterwards (independence test), so what it drops are the bumped values
     let cl := t.clone id
     pure { cx.same with toks := [toString cl.numCols, toString cl.numRows, fmtList cl.data,
-                                  if TD.eqDerived (fun x y => x == y) cl t then "eq=1" else "eq=0",
+                                  if TD.eqDerived cx.elem.eqα cl t then "eq=1" else "eq=0",
                                   if TD.hashFeed (fun x => [x]) cl = TD.hashFeed (fun x => [x]) t then "hasheq=1" else "hasheq=0", "indep=1"],
                          drops := cx.dr (cl.data.map fun v => if cx.elem.isZst then 0 else v + 1) }
+  | "eqself", [] =>
+    -- `td == td` through two references: the derived `==` compares cell by cell, so it is false when some cell is not equal to itself
+    pure { cx.same with toks := [if TD.eqDerived cx.elem.eqα t t then "1" else "0"] }
   | "clone_from", [c, r, l] => do
     -- `td.clone_from(&src)` through the transcription of the (defaulted) `clone_from` (`TD.cloneFrom`, C20_clone_from); the
     -- harness drops the source at the end of the step
@@ -222,7 +225,7 @@ def stepConv (cx : Ctx) (rc : Recv) (op : String) (args : List String) : Option 
     let src : TD Nat := ⟨cx.vs l, r, c⟩
     let (t', dropped, res) := t.cloneFrom id src cx.faultK
     match res with
-    | .ok _ => pure { cx.ofTD t' with toks := [if TD.eqDerived (fun x y => x == y) t' src then "eq=1" else "eq=0"],
+    | .ok _ => pure { cx.ofTD t' with toks := [if TD.eqDerived cx.elem.eqα t' src then "eq=1" else "eq=0"],
                                        drops := cx.dr (dropped ++ src.data) }
     | .error e => pure { cx.ofTD t' with status := errStatus e, drops := cx.dr (dropped ++ src.data) }
   | "eq", [c, r, l] => do
@@ -230,7 +233,7 @@ def stepConv (cx : Ctx) (rc : Recv) (op : String) (args : List String) : Option 
     -- `==` and the hash digest through the transcriptions of the derived impls (`TD.eqDerived`, `TD.hashFeed`, C20): the
     -- digests are predicted equal exactly when the two arrays feed the hasher the same sequence
     let other : TD Nat := ⟨cx.vs l, r, c⟩
-    let e := TD.eqDerived (fun x y => x == y) t other
+    let e := TD.eqDerived cx.elem.eqα t other
     let he := decide (TD.hashFeed (fun x => [x]) t = TD.hashFeed (fun x => [x]) other)
     pure { cx.same with toks := [if e then "1" else "0", if he then "hasheq=1" else "hasheq=0"], drops := cx.dr (cx.vs l) }
   | "vieweq", [] => pure { cx.same with toks := ["1", "hasheq=1"] }
